@@ -160,6 +160,7 @@ type env struct {
 	dir   string
 	p     *perturb
 	acked atomic.Uint64 // largest tx id returned by a write call so far
+	clock atomic.Uint64 // logical clock of the calls (cross-check only)
 }
 
 func (e *env) ack(tx uint64) {
@@ -217,6 +218,17 @@ func openDB(c dbCfg) (*env, error) {
 func (e *env) close() {
 	e.db.Close()
 	os.RemoveAll(e.dir)
+}
+
+// lo / hi read the frontier and stamp the logical clock on the inside of the window.
+func (e *env) lo(r *rec) {
+	r.Lo = e.frontier()
+	r.Call = e.clock.Add(1)
+}
+
+func (e *env) hi(r *rec) {
+	r.Ret = e.clock.Add(1)
+	r.Hi = e.frontier()
 }
 
 func (e *env) frontier() uint64 {
@@ -601,6 +613,7 @@ type rec struct {
 	Req         string // resolved request, human readable
 	Lo, Hi      uint64 // committed frontier just before the call / just after the return
 	AckLo       uint64 // largest tx id a write call had returned before this call started
+	Call, Ret   uint64 // logical clock at call / at return (used by the independent cross-check only)
 
 	// resolved parameters
 	Keys   []string
@@ -807,9 +820,9 @@ func (c *client) run(idx int, o opT) {
 		}
 		r.Pre, req.Preconditions = c.preconds(o.Pre)
 		r.Req = "Set" + subsString(r.Sub) + precondsString(r.Pre)
-		r.Lo = c.e.frontier()
+		c.e.lo(r)
 		hdr, err = db.Set(bg, req)
-		r.Hi = c.e.frontier()
+		c.e.hi(r)
 	case "delete":
 		r.IsWrite = true
 		req := &schema.DeleteKeysRequest{SinceTx: c.since(o)}
@@ -819,9 +832,9 @@ func (c *client) run(idx int, o opT) {
 			req.Keys = append(req.Keys, []byte(key(k)))
 		}
 		r.Req = fmt.Sprintf("Delete%s since=%d", subsString(r.Sub), r.Since)
-		r.Lo = c.e.frontier()
+		c.e.lo(r)
 		hdr, err = db.Delete(bg, req)
-		r.Hi = c.e.frontier()
+		c.e.hi(r)
 	case "setref":
 		r.IsWrite = true
 		s := subR{Kind: "ref", Key: key(o.K[0]), Target: key(o.K[1])}
@@ -830,9 +843,9 @@ func (c *client) run(idx int, o opT) {
 		req := &schema.ReferenceRequest{Key: []byte(s.Key), ReferencedKey: []byte(s.Target), AtTx: s.AtTx, BoundRef: s.Bound}
 		r.Pre, req.Preconditions = c.preconds(o.Pre)
 		r.Req = "SetReference" + subsString(r.Sub) + precondsString(r.Pre)
-		r.Lo = c.e.frontier()
+		c.e.lo(r)
 		hdr, err = db.SetReference(bg, req)
-		r.Hi = c.e.frontier()
+		c.e.hi(r)
 	case "zadd":
 		r.IsWrite = true
 		s := subR{Kind: "zadd", Key: key(o.K[0]), Set: c.u.Sets[o.Set], Score: float64(o.Score)}
@@ -840,9 +853,9 @@ func (c *client) run(idx int, o opT) {
 		r.Sub = []subR{s}
 		req := &schema.ZAddRequest{Set: []byte(s.Set), Score: s.Score, Key: []byte(s.Key), AtTx: s.AtTx, BoundRef: s.Bound}
 		r.Req = "ZAdd" + subsString(r.Sub)
-		r.Lo = c.e.frontier()
+		c.e.lo(r)
 		hdr, err = db.ZAdd(bg, req)
-		r.Hi = c.e.frontier()
+		c.e.hi(r)
 	case "execall":
 		r.IsWrite = true
 		req := &schema.ExecAllRequest{}
@@ -878,9 +891,9 @@ func (c *client) run(idx int, o opT) {
 		}
 		r.Pre, req.Preconditions = c.preconds(o.Pre)
 		r.Req = "ExecAll" + subsString(r.Sub) + precondsString(r.Pre)
-		r.Lo = c.e.frontier()
+		c.e.lo(r)
 		hdr, err = db.ExecAll(bg, req)
-		r.Hi = c.e.frontier()
+		c.e.hi(r)
 
 	case "get", "getsince", "getat", "getrev":
 		k := key(o.K[0])
@@ -903,10 +916,10 @@ func (c *client) run(idx int, o opT) {
 		}
 		r.Since, r.AtTx, r.Rev = req.SinceTx, req.AtTx, req.AtRevision
 		r.Req = fmt.Sprintf("Get(%s since=%d at=%d rev=%d)", k, r.Since, r.AtTx, r.Rev)
-		r.Lo = c.e.frontier()
+		c.e.lo(r)
 		var e *schema.Entry
 		e, err = db.Get(bg, req)
-		r.Hi = c.e.frontier()
+		c.e.hi(r)
 		if err == nil {
 			r.Out.Ents = []ent{toEnt(e)}
 		}
@@ -918,10 +931,10 @@ func (c *client) run(idx int, o opT) {
 		}
 		r.Since = req.SinceTx
 		r.Req = fmt.Sprintf("GetAll(%v since=%d)", r.Keys, r.Since)
-		r.Lo = c.e.frontier()
+		c.e.lo(r)
 		var es *schema.Entries
 		es, err = db.GetAll(bg, req)
-		r.Hi = c.e.frontier()
+		c.e.hi(r)
 		if err == nil {
 			for _, e := range es.Entries {
 				r.Out.Ents = append(r.Out.Ents, toEnt(e))
@@ -940,10 +953,10 @@ func (c *client) run(idx int, o opT) {
 		req := &schema.ScanRequest{Prefix: []byte(s.Prefix), SeekKey: []byte(s.Seek), EndKey: []byte(s.End), Desc: s.Desc,
 			Limit: s.Limit, Offset: s.Offset, InclusiveSeek: s.InclSeek, InclusiveEnd: s.InclEnd, SinceTx: r.Since}
 		r.Req = fmt.Sprintf("Scan(%+v since=%d)", s, r.Since)
-		r.Lo = c.e.frontier()
+		c.e.lo(r)
 		var es *schema.Entries
 		es, err = db.Scan(bg, req)
-		r.Hi = c.e.frontier()
+		c.e.hi(r)
 		if err == nil {
 			for _, e := range es.Entries {
 				r.Out.Ents = append(r.Out.Ents, toEnt(e))
@@ -964,10 +977,10 @@ func (c *client) run(idx int, o opT) {
 		r.Since = c.since(o)
 		req.SinceTx = r.Since
 		r.Req = fmt.Sprintf("ZScan(%+v since=%d)", z, r.Since)
-		r.Lo = c.e.frontier()
+		c.e.lo(r)
 		var zs *schema.ZEntries
 		zs, err = db.ZScan(bg, req)
-		r.Hi = c.e.frontier()
+		c.e.hi(r)
 		if err == nil {
 			for _, e := range zs.Entries {
 				r.Out.ZEnts = append(r.Out.ZEnts, zent{Set: string(e.Set), Key: string(e.Key), Score: e.Score, AtTx: e.AtTx, E: toEnt(e.Entry)})
@@ -980,10 +993,10 @@ func (c *client) run(idx int, o opT) {
 		r.Since = c.since(o)
 		req := &schema.HistoryRequest{Key: []byte(k), Offset: r.HOff, Desc: r.HDesc, Limit: int32(r.HLimit), SinceTx: r.Since}
 		r.Req = fmt.Sprintf("History(%s off=%d desc=%v limit=%d since=%d)", k, r.HOff, r.HDesc, r.HLimit, r.Since)
-		r.Lo = c.e.frontier()
+		c.e.lo(r)
 		var es *schema.Entries
 		es, err = db.History(bg, req)
-		r.Hi = c.e.frontier()
+		c.e.hi(r)
 		if err == nil {
 			r.Out.Ents = []ent{}
 			for _, e := range es.Entries {
@@ -993,10 +1006,10 @@ func (c *client) run(idx int, o opT) {
 	case "count":
 		r.Prefix = o.Prefix
 		r.Req = fmt.Sprintf("Count(%q)", o.Prefix)
-		r.Lo = c.e.frontier()
+		c.e.lo(r)
 		var ec *schema.EntryCount
 		ec, err = db.Count(bg, &schema.KeyPrefix{Prefix: []byte(o.Prefix)})
-		r.Hi = c.e.frontier()
+		c.e.hi(r)
 		if err == nil {
 			r.Out.IsCnt, r.Out.Count = true, ec.Count
 		}
